@@ -195,6 +195,60 @@ func armCalls(info *types.Info, cc *ast.CaseClause, accept func(*types.Func) boo
 	return out
 }
 
+// switchArms: the arms of a message-type switch. An arm that lists several kinds and hands the message to a
+// function of the package that switches on the message type again (dispatch grouped by category) is
+// resolved, per kind, to the arm of that inner switch.
+func (m *Model) switchArms(fn *Func, sw *ast.SwitchStmt, accept func(*types.Func) bool, depth int) []Arm {
+	var arms []Arm
+	for _, cl := range sw.Body.List {
+		cc := cl.(*ast.CaseClause)
+		calls := armCalls(fn.Info(), cc, accept)
+		var inner []Arm
+		if len(calls) == 0 && depth < 2 {
+			// a call to a function of the same package with a message-type switch of its own
+			for _, st := range cc.Body {
+				ast.Inspect(st, func(n ast.Node) bool {
+					call, ok := n.(*ast.CallExpr)
+					if !ok {
+						return true
+					}
+					if f, ok := calleeObj(fn.Info(), call).(*types.Func); ok {
+						if g := m.P.Funcs[f]; g != nil && g.Pkg == fn.Pkg && g != fn {
+							for _, isw := range m.msgTypeSwitches(g) {
+								inner = append(inner, m.switchArms(g, isw, accept, depth+1)...)
+							}
+						}
+					}
+					return true
+				})
+			}
+		}
+		for _, x := range cc.List {
+			c := constOf(fn.Info(), x)
+			if c == nil {
+				continue
+			}
+			a := Arm{Const: c, Clause: cc}
+			if len(calls) == 1 {
+				a.Method = calls[0]
+			}
+			if len(calls) == 0 && inner != nil {
+				var hit []Arm
+				for _, ia := range inner {
+					if ia.Const == c {
+						hit = append(hit, ia)
+					}
+				}
+				if len(hit) == 1 {
+					a.Method = hit[0].Method
+				}
+			}
+			arms = append(arms, a)
+		}
+	}
+	return arms
+}
+
 func (m *Model) findDispatch(r *Run) {
 	p := m.P
 	iface := m.HandlerIface.Underlying().(*types.Interface)
@@ -213,22 +267,7 @@ func (m *Model) findDispatch(r *Run) {
 			continue
 		}
 		for _, sw := range m.msgTypeSwitches(fn) {
-			var arms []Arm
-			for _, cl := range sw.Body.List {
-				cc := cl.(*ast.CaseClause)
-				calls := armCalls(fn.Info(), cc, isHandlerMethod)
-				for _, x := range cc.List {
-					c := constOf(fn.Info(), x)
-					if c == nil {
-						continue
-					}
-					a := Arm{Const: c, Clause: cc}
-					if len(calls) == 1 {
-						a.Method = calls[0]
-					}
-					arms = append(arms, a)
-				}
-			}
+			arms := m.switchArms(fn, sw, isHandlerMethod, 0)
 			if len(arms) > len(bestArms) {
 				best, bestArms = fn, arms
 			}
@@ -268,6 +307,59 @@ func (m *Model) findDispatch(r *Run) {
 	if best == nil || len(bestArms) < 5 {
 		r.Undecide("anchors", "core dispatch (switch or table over hwebsocket.Msg.Type) not found in package websocket")
 		return
+	}
+	// the dispatch function is the one that also consults the modules: when the switch lives in a helper
+	// (dispatch split into "core" and "modules" parts), climb to the caller that does both
+	mentionsHWM := func(fn *Func) bool {
+		seen := map[*Func]bool{}
+		var visit func(fn *Func, depth int) bool
+		visit = func(fn *Func, depth int) bool {
+			if fn == nil || seen[fn] || depth > 3 {
+				return false
+			}
+			seen[fn] = true
+			found := false
+			ast.Inspect(fn.Body, func(n ast.Node) bool {
+				if call, ok := n.(*ast.CallExpr); ok && !found {
+					if f, ok := calleeObj(fn.Info(), call).(*types.Func); ok {
+						if f.Name() == "HandleWithModule" {
+							found = true
+						} else if g := p.Funcs[f]; g != nil && g.Pkg == fn.Pkg && p.isGlue(f) {
+							if visit(g, depth+1) {
+								found = true
+							}
+						}
+					}
+				}
+				return !found
+			})
+			return found
+		}
+		return visit(fn, 0)
+	}
+	for climb := 0; climb < 3 && !m.TableDispatch && !mentionsHWM(best); climb++ {
+		var callers []*Func
+		for _, fn := range p.All {
+			if fn.Pkg != best.Pkg || fn == best || fn.Obj == nil {
+				continue
+			}
+			calls := false
+			ast.Inspect(fn.Body, func(n ast.Node) bool {
+				if call, ok := n.(*ast.CallExpr); ok {
+					if f, ok := calleeObj(fn.Info(), call).(*types.Func); ok && f == best.Obj {
+						calls = true
+					}
+				}
+				return true
+			})
+			if calls {
+				callers = append(callers, fn)
+			}
+		}
+		if len(callers) != 1 {
+			break
+		}
+		best = callers[0]
 	}
 	m.Dispatch = best
 	for i := range bestArms {
